@@ -142,3 +142,25 @@ def coordinate_display_formats(repo):
         if ty == "TypeAttributeCoordinate" and "attribute: field" not in body:
             return False, "Display for TypeAttributeCoordinate no longer binds attribute as `field`"
     return True, "Display impls are format strings of exactly the parsed pieces: " + ", ".join(want.values())
+
+
+@frame("peek_while_is_the_plain_loop")
+def peek_while_is_the_plain_loop(repo):
+    """The units inline the combinators peek_while / peek_while_kind at their call sites in list_value / object_value; this checks that the
+    combinators still are the plain loops that were inlined (modulo debug_assert! and the `before` clone used only by it)."""
+    sf = SourceFile(repo, "crates/apollo-parser/src/parser/mod.rs")
+    def norm(name):
+        it = sf.find("fn", name, r"Parser<'input>")
+        t = re.sub(r"debug_assert!\s*\((?:[^()]|\([^()]*\))*\)\s*;", "", it.text)
+        t = mask_source(t)
+        t = re.sub(r"let before = self\.current_token\.clone\(\);", "", t)
+        return " ".join(t.split())
+    a = norm("peek_while")
+    want_a = "pub(crate) fn peek_while( &mut self, mut run: impl FnMut(&mut Parser, TokenKind) -> ControlFlow<()>, ) { while let Some(kind) = self.peek() { match run(self, kind) { ControlFlow::Break(()) => break, ControlFlow::Continue(()) => { } } } }"
+    b = norm("peek_while_kind")
+    want_b = "pub(crate) fn peek_while_kind(&mut self, expect: TokenKind, mut run: impl FnMut(&mut Parser)) { while let Some(kind) = self.peek() { if kind != expect { break; } run(self); } }"
+    if a != want_a:
+        return False, "peek_while changed: %s" % a
+    if b != want_b:
+        return False, "peek_while_kind changed: %s" % b
+    return True, "peek_while / peek_while_kind are the plain peek-loops that the units inline into list_value / object_value"
